@@ -618,3 +618,6 @@ def check(ctx):
     r12_codegen_renderers_erase_lifetimes(ctx)
     r13_canonical_forms_compared_whole(ctx)
     r14_alias_never_replaces_a_real_binding(ctx)
+
+
+CLAUSE += '; every write of a generated file goes to a handle that replaces the file (no tail of a previous, longer generation survives)'
